@@ -457,6 +457,8 @@ def run_c18(tier):
                 job["env"] = {"RP2_ENABLE_PROFILER": "1", "LOG_LEVEL": "DEBUG"}      # the switches rp2 reads from the environment
             if n % 4 == 0:
                 job["cwd_files"] = {"log": "a file, not a directory\n"}               # the working directory already holds a FILE named log
+            if n % 4 == 3:
+                job["relative_out"] = True          # -o given relative to the working directory (the default output/ is relative too)
             if n % 2 == 1:
                 # the output directory already holds entries named like this run's reports: stale files, and symbolic links to files kept elsewhere
                 tag = (job.get("sched") and (job["sched"][0][1] if len(job["sched"]) == 1 else "mixed")) or job["args"].get("method") or "fifo"
